@@ -11,10 +11,10 @@ import re
 
 CLASSES = {
     "torn": ["zero", "truncate", "tail", "dup_block", "open_construct", "open_construct"],
-    "corrupt": ["flip", "bad_utf8", "nul", "bom8", "bom16", "crlf", "mixed_eol", "lone_cr", "ws_only", "binary"],
+    "corrupt": ["flip", "bad_utf8", "nul", "bom8", "bom16", "crlf", "mixed_eol", "lone_cr", "ws_only", "binary", "escape_in_string"],
     "grammar": ["del_line", "dup_line", "del_token", "dup_token", "unbalance", "drop_close", "dedent",
                 "swap_ext", "shebang", "del_char", "dup_char", "del_punct", "stray_line", "truncate_line"],
-    "blowup": ["nest", "chain", "long_line", "many_funcs", "deep_parens", "deep_list"],
+    "blowup": ["nest", "chain", "long_line", "many_funcs", "deep_parens", "deep_list", "long_run", "long_run", "huge_number"],
 }
 KIND_CLASS = {k: c for c, ks in CLASSES.items() for k in ks}
 EXTS = [".py", ".ts", ".tsx", ".js", ".jsx", ".rs", ".java", ".go", ".txt", ".md", "", ".PY", ".json"]
@@ -69,6 +69,12 @@ def draw_fault(t, data: bytes, lang: str, allow_blowup: bool = True, force_blowu
         p = [t.pick([200, 1500, 6000, 20000], "fault.n")]
     elif kind == "long_line":
         p = [t.pick([5000, 100000, 1000000], "fault.n")]
+    elif kind == "long_run":
+        p = [t.pick([300, 2500, 9000], "fault.n"), t.draw(12, "fault.shape"), t.draw(P, "fault.pos")]
+    elif kind == "huge_number":
+        p = [t.pick([40, 700, 4400, 20000], "fault.n"), t.draw(4, "fault.base")]
+    elif kind == "escape_in_string":
+        p = [t.draw(P, "fault.pos"), t.draw(10, "fault.esc")]
     elif kind == "many_funcs":
         p = [t.pick([60, 200, 500], "fault.n")]
     elif kind in ("deep_parens", "deep_list"):
@@ -213,8 +219,52 @@ def apply(f: dict, data: bytes, lang: str) -> bytes:
         first = [b"#!/usr/bin/env python3", b"#!/usr/bin/env python3", b"#!/usr/bin/python", b"#!", b"#! ", b"#!\r",
                  b"#!/bin/sh", b"#"][(p[0] if p else 0) % 8]
         return first + b"\n" + data
+    if k == "escape_in_string":
+        # the content of one short string literal becomes an escape sequence (still valid source)
+        esc = [b"\\ud800", b"\\udfff\\ud800", b"\\x00", b"\\U0010ffff", b"\\N{BULLET}", b"\\\\", b"\\u200b", b"\\xff\\xfe",
+               b"\\0", b"\\ud83d"][p[1] % 10]
+        lits = list(re.finditer(rb"\"([A-Za-z_ -]{1,12})\"", data))
+        if not lits:
+            return data
+        m = lits[(p[0] * len(lits)) >> 20]
+        return data[:m.start(1)] + esc + data[m.end(1):]
+    if k == "long_run":
+        return _long_run(data, p[0], p[1], p[2], lang)
+    if k == "huge_number":
+        lit = [b"0x" + b"F" * p[0], b"9" * p[0], b"1" + b"0" * p[0] + b".5", b"0b" + b"1" * p[0]][p[1] % 4]
+        if lang == "python":
+            return data + b"\n\ndef huge_value():\n    return " + lit + b"\n"
+        if lang == "rust":
+            return data + b"\npub fn huge_value() -> u128 { " + lit + b" }\n"
+        return data + b"\nexport function hugeValue() { return " + lit + b"; }\n"
     # ---- blow-up: appended constructs in the file's language
     return data + _blowup(k, p[0], lang)
+
+
+def _long_run(data: bytes, n: int, shape: int, pos: int, lang: str) -> bytes:
+    """One extremely long line: a long run of one character class in a place where scanners look."""
+    cm = b"#" if lang == "python" else b"//"
+    shapes = [
+        b"/**" + b" " * n + b"x",                                   # unterminated doc comment followed by blanks
+        cm + b" " * n + b"x",
+        cm + b" noqa: " + b"A" * n + b"-",
+        cm + b" type: ignore[" + b"a" * n,
+        cm + b" thailint: ignore[" + b"a," * (n // 2),
+        b"ident_" + b"a" * n + b" = 1" if lang == "python" else b"const ident_" + b"a" * n + b" = 1;",
+        b'"""\nSuppressions:\n' + b" " * n + b"x\n" + b'"""' if lang == "python" else b"/*\nSuppressions:\n" + b" " * n + b"x\n*/",
+        b" " * n,
+        b"\t" * n + b"x = 1",
+        cm + b" " + b"- " * (n // 2),
+        b"x = '" + b"\\" * (n // 2 * 2) + b"'",
+        cm + b" TODO" + b"!" * n,
+    ]
+    line = shapes[shape % len(shapes)]
+    ls = _lines(data)
+    i = (pos * (len(ls) + 1)) >> 20
+    if shape % len(shapes) in (0, 6) and shape % 2 == 0:
+        i = 0                                                       # headers are looked for at the top of the file
+    ls[i:i] = [line]
+    return b"\n".join(ls)
 
 
 def _blowup(k: str, n: int, lang: str) -> bytes:
@@ -261,6 +311,8 @@ def _blowup(k: str, n: int, lang: str) -> bytes:
         if rs:
             return f"\npub fn blow_paren() -> i32 {{ {expr} }}\n".encode()
         return f"\nconst blowParen = {expr};\n".encode()
+    if k == "huge_number":
+        return b""   # handled in apply() via _huge_number
     if k == "deep_list":
         expr = "[" * n + "1" + "]" * n
         if py:
